@@ -277,6 +277,12 @@ def main(argv=None):
                     rep = ob.replay({})
                 except Exception as e:  # noqa: BLE001
                     rep = None
+            f_open = open_findings.get(ob.id)
+            if rep and rep.get("reproduced") and f_open is not None:
+                # the obligation could not be decided on this tree, and what its bounded search finds is the recorded known
+                # finding of this very obligation: still the known finding, not a new violation
+                known.append((ob, f_open))
+                continue
             if rep and rep.get("reproduced"):
                 path = os.path.join("replays", f"{prop}-{ob.id.replace('/', '_')}.json")
                 json.dump(jsonable({"property": prop, "obligation": ob.id, "statement": ob.statement, "functions": ob.functions, "backend": v.backend,
